@@ -476,9 +476,16 @@ class A:
             return ite(_lt(b, a), b, a)
         return self._reduce(f)
 
-    def max(self):
+    def max(self, axis=None, initial=None, **kw):
+        if axis is not None or kw:
+            raise Unsupported("max with axis / options")
+
         def f(a, b):
             return ite(_lt(a, b), b, a)
+        if initial is not None:
+            if not self.cells:
+                return initial
+            return f(initial, self._reduce(f))
         return self._reduce(f)
 
     def sum(self, axis=None):
@@ -651,9 +658,16 @@ def _floordiv(a, b):
     if is_sym(a) or is_sym(b):
         if isinstance(a, SF) or isinstance(b, SF):
             raise Unsupported("float floor division")
-        if is_sym(b):
-            raise Unsupported("floor division by a symbolic divisor")
         from .values import int_floordiv
+        if is_sym(b):
+            # a symbolic divisor is a small count in the sources: case split over its values (division by constants only);
+            # NumPy's integer x // 0 is 0 (with a warning)
+            bound = 16
+            current().check("small_divisor", z3.And(b >= 0, b <= bound))
+            q = z3.IntVal(0)
+            for k in range(bound, 0, -1):
+                q = z3.If(b == k, int_floordiv(a, k), q)
+            return q
         if b > 0:
             return int_floordiv(a, b)          # z3 integer div: floor for positive divisor
         return int_floordiv(-a, -b)
